@@ -93,8 +93,12 @@ fn construct(case: &Case) -> Result<TimeoutSettings, String> {
             args.push("--retries".into());
             args.push(case.retries.to_string());
             if let Some(j) = &case.junk {
-                args.push("--read-timeout".into());
-                args.push(j.clone());
+                // on the flag chosen by the value's digest, replacing that flag's regular value
+                let flag = junk_flag(j);
+                if let Some(at) = args.iter().position(|a| a == flag) {
+                    args.drain(at ..= at + 1);
+                }
+                args.push(format!("{flag}={j}"));
             }
             Flags::try_parse_from(args).map(|f| f.timeouts).map_err(|e| format!("clap: {}", e.kind()))
         }
@@ -109,6 +113,8 @@ fn construct(case: &Case) -> Result<TimeoutSettings, String> {
     }
 }
 
+fn junk_flag(j: &str) -> &'static str { ["--read-timeout", "--write-timeout", "--connect-timeout"][(crate::runner::digest(j.as_bytes()) % 3) as usize] }
+
 impl Prop for C18 {
     type Case = Case;
 
@@ -120,7 +126,7 @@ impl Prop for C18 {
          succeeds and the getters return what was given (flags: whole seconds, absent = the 4 s default). Every accepted value is then used (a) in real-socket queries (Quake 3 over \
          UDP, Minecraft legacy over TCP, Valve over UDP, Eco over HTTP) against loopback servers that answer at once, with retries capped at 1 so that nanosecond read timeouts cannot loop forever, \
          and (b) with its full retry count in scripted queries of all 18 retrying entry points against a server that is silent twice and then answers: no panic (overflow checks on), \
-         and with r >= 2 the scripted query must succeed. Random cases add non-numeric / negative / overflowing flag values. non-trivial = an extreme value is present; distinct = \
+         and with r >= 2 the scripted query must succeed. Random cases replace one timeout flag's value by a non-numeric / negative / overflowing value or by one of many spellings of zero (00, +0, 0.0, 0e0, ...): accepted only if u64's parser accepts it and it is not zero, and then the getter must return it. non-trivial = an extreme value is present; distinct = \
          digest of the case"
             .into()
     }
@@ -136,7 +142,13 @@ impl Prop for C18 {
     fn strategy(&self, _tier: Tier) -> BoxedStrategy<Case> {
         let d = || prop::sample::select(DURS.to_vec());
         (d(), d(), d(), prop_oneof![prop::sample::select(RETRIES.to_vec()), any::<usize>()], prop::sample::select(vec![Path::New, Path::Clap, Path::Serde]),
-         prop::option::of(prop_oneof!["-[0-9]{1,3}", "[a-z]{1,4}", Just("18446744073709551616".to_string()), Just("1.5".to_string()), Just("".to_string()), "[0-9]{1,25}"]))
+         prop::option::of(prop_oneof![
+             2 => "-[0-9]{1,3}", 2 => "[a-z]{1,4}", 1 => Just("18446744073709551616".to_string()), 1 => Just("1.5".to_string()), 1 => Just("".to_string()), 3 => "[0-9]{1,25}",
+             // every spelling of zero the integer parser may accept, and look-alikes
+             6 => prop::sample::select(vec!["0", "00", "000", "+0", "+00", "-0", "0.0", "0e0", "0x0", " 0", "0 ", "０", "0_0", "+", "0000000000000000000000000"]).prop_map(|s| s.to_string()),
+             2 => "[+]?0{1,30}",
+             2 => "[+-]?[0-9]{0,3}[.eE_x][0-9]{0,3}",
+         ]))
             .prop_map(|(read, write, connect, retries, path, junk)| Case { read, write, connect, retries, path, junk: if path == Path::Clap { junk } else { None } })
             .boxed()
     }
@@ -177,10 +189,24 @@ impl Prop for C18 {
         if let Some(j) = &case.junk {
             // a second --read-timeout with junk: clap must answer with an error or (if numeric and in range) a value; never a panic
             o.label("junk-flag");
-            let numeric_ok = j.parse::<u64>().is_ok();
-            if built.is_ok() && !numeric_ok {
-                o.fail("C18|construct Clap|junk flag value accepted", json!({"value": j}));
+            // the flags are whole seconds: what u64's parser accepts, zero excluded
+            let numeric = j.parse::<u64>().ok();
+            match (&built, numeric) {
+                (Ok(_), None) => {
+                    o.fail("C18|construct Clap|junk flag value accepted", json!({"value": j, "flag": junk_flag(j)}));
+                }
+                (Ok(s), Some(0)) => {
+                    o.fail("C18|construct Clap|zero duration accepted", json!({"value": j, "flag": junk_flag(j), "settings": format!("{s:?}")}));
+                }
+                (Ok(s), Some(n)) => {
+                    let got = match junk_flag(j) { "--read-timeout" => s.get_read(), "--write-timeout" => s.get_write(), _ => s.get_connect() };
+                    if got != Some(Duration::from_secs(n)) {
+                        o.fail("C18|construct Clap|getters differ from the given values", json!({"value": j, "flag": junk_flag(j), "settings": format!("{s:?}")}));
+                    }
+                }
+                (Err(_), _) => {}
             }
+            if j.parse::<u64>().map(|n| n == 0).unwrap_or(false) { o.label("junk-flag:zero-spelling"); }
             return o;
         }
         let settings = match (built, any_zero && case.path != Path::Default) {
